@@ -103,3 +103,86 @@ Proof.
   destruct i as [|[|[|i]]]; try lia; cbn; split; unfold Qle; cbn; lia.
 Qed.
 Print Assumptions C07_nonvacuous.
+
+(* ------------------------------------------------------------------------------------------------
+   THE TIE TO THE SOURCE.  gen/GenCode.v is regenerated on every run from the bodies of bounds_control
+   (optimizers/_differentialevolution.py), bounds_control_mean (optimizers/_shade.py), binomial
+   (utils/crossovers.py) and the DE strategies (utils/mutations.py) by harness/translate_code.py (semantics of
+   the subset: theories/Py.v).  The models above are EQUAL to the generated definitions. *)
+From TF Require Import Py CodeEqC11 CodeEqC07.
+From TFG Require Import GenCode.
+
+Theorem C07_code_bounds_control : forall a l r, py_bounds_control a l r = bounds_control a l r.
+Proof. exact code_bounds_control. Qed.
+Print Assumptions C07_code_bounds_control.
+
+Theorem C07_code_bounds_control_mean : forall a parent l r,
+  py_bounds_control_mean a parent l r = bounds_control_mean a parent l r.
+Proof. exact code_bounds_control_mean. Qed.
+Print Assumptions C07_code_bounds_control_mean.
+
+Theorem C07_code_binomial : forall individ mutant CR ds, py_binomial individ mutant CR ds = binomial individ mutant CR ds.
+Proof. exact code_binomial. Qed.
+Print Assumptions C07_code_binomial.
+
+Theorem C07_code_best_1 : forall cur best pop F ds,
+  valid_draws ds -> (2 <= length pop)%nat -> uniform_rows (length best) pop -> length cur = length best ->
+  py_best_1 cur best pop F ds = de_mutation 0 cur best pop F ds.
+Proof. exact code_best_1. Qed.
+Print Assumptions C07_code_best_1.
+
+Theorem C07_code_rand_1 : forall cur best pop F ds,
+  valid_draws ds -> (3 <= length pop)%nat -> uniform_rows (length best) pop -> length cur = length best ->
+  py_rand_1 cur best pop F ds = de_mutation 1 cur best pop F ds.
+Proof. exact code_rand_1. Qed.
+Print Assumptions C07_code_rand_1.
+
+Theorem C07_code_rand_to_best1 : forall cur best pop F ds,
+  valid_draws ds -> (3 <= length pop)%nat -> uniform_rows (length best) pop -> length cur = length best ->
+  py_rand_to_best1 cur best pop F ds = de_mutation 2 cur best pop F ds.
+Proof. exact code_rand_to_best1. Qed.
+Print Assumptions C07_code_rand_to_best1.
+
+Theorem C07_code_current_to_best_1 : forall cur best pop F ds,
+  valid_draws ds -> (2 <= length pop)%nat -> uniform_rows (length best) pop -> length cur = length best ->
+  py_current_to_best_1 cur best pop F ds = de_mutation 3 cur best pop F ds.
+Proof. exact code_current_to_best_1. Qed.
+Print Assumptions C07_code_current_to_best_1.
+
+Theorem C07_code_best_2 : forall cur best pop F ds,
+  valid_draws ds -> (4 <= length pop)%nat -> uniform_rows (length best) pop -> length cur = length best ->
+  py_best_2 cur best pop F ds = de_mutation 4 cur best pop F ds.
+Proof. exact code_best_2. Qed.
+Print Assumptions C07_code_best_2.
+
+Theorem C07_code_rand_2 : forall cur best pop F ds,
+  valid_draws ds -> (5 <= length pop)%nat -> uniform_rows (length best) pop -> length cur = length best ->
+  py_rand_2 cur best pop F ds = de_mutation 5 cur best pop F ds.
+Proof. exact code_rand_2. Qed.
+Print Assumptions C07_code_rand_2.
+
+Theorem C07_src_clamp_in_box : forall a l r, box_ok l r -> length a = length l -> in_box l r (py_bounds_control a l r).
+Proof. exact src_clamp_in_box. Qed.
+Print Assumptions C07_src_clamp_in_box.
+
+Theorem C07_src_mean_in_box : forall a parent l r, length a = length l -> in_box l r parent ->
+  in_box l r (py_bounds_control_mean a parent l r).
+Proof. exact src_mean_in_box. Qed.
+Print Assumptions C07_src_mean_in_box.
+
+Theorem C07_src_binomial : forall individ mutant CR ds child ds',
+  valid_draws ds -> (0 < length individ)%nat ->
+  py_binomial individ mutant CR ds = Some (child, ds') ->
+  length child = length individ /\
+  exists j, (j < length individ)%nat /\ vnth child j = vnth mutant j /\
+    forall i, (i < length individ)%nat -> vnth child i = vnth mutant i \/ vnth child i = vnth individ i.
+Proof. exact src_binomial. Qed.
+Print Assumptions C07_src_binomial.
+
+Theorem C07_src_best_1_donor : forall cur best pop F ds d ds',
+  valid_draws ds -> (2 <= length pop)%nat -> uniform_rows (length best) pop -> length cur = length best ->
+  py_best_1 cur best pop F ds = Some (d, ds') ->
+  exists rs, length rs = 2%nat /\ NoDup rs /\
+    Forall (fun v => (0 <= v < Z.of_nat (length pop))%Z) rs /\ d = donor_of 0 cur best pop F rs.
+Proof. exact src_best_1_donor. Qed.
+Print Assumptions C07_src_best_1_donor.
